@@ -97,3 +97,98 @@ package ptracer
 //@   assigns c.regs.Orig_rax, T.setregs_count, T.setregs_orig_rax, T.setregs_rax, T.setregs_pid
 //@   ensures c.regs.Orig_rax == 18446744073709551615
 //@   ensures T.setregs_count == old(T.setregs_count) + 1 && T.setregs_orig_rax == 18446744073709551615 && T.setregs_rax == old(c.regs.Rax) && T.setregs_pid == c.Pid
+
+// ---- the tracer's event loop ----
+
+// Policy handler (interface): any verdict; may set the return value register only.
+//@ func iface:ptracer.Handler.Handle
+//@   assumed "interface contract every Handler implementation is checked against (runner/ptrace.tracerHandler.Handle refines it)"
+//@   params h ctx
+//@   assigns ctx.regs.Rax
+
+//@ func iface:ptracer.Handler.Debug
+//@   assumed "logging only"
+//@   pure
+
+//@ func ptracer.getTrapContext
+//@   arith bv
+//@   assigns nothing
+//@   ensures result.1 == nil ==> result.0 != nil && fresh(result.0) && result.0.Pid == pid
+
+// Option word: TRACESECCOMP 0x80 | EXITKILL 0x100000 | TRACEFORK 0x2 | TRACECLONE 0x8 | TRACEEXEC 0x10 | TRACEVFORK 0x4
+//@ func ptracer.setPtraceOption props C03 C16
+//@   arith bv
+//@   assigns T.options
+//@   ensures result == nil ==> T.options == old(T.options)[pid := 1048734]
+//@   ensures result != nil ==> T.options == old(T.options)
+
+// Ban: the registers are written once with syscall number -1 and the handler's return value; the
+// error of that write is returned. Kill: an error, no register write. Allow: nil, no register write.
+//@ func ptracer.(*ptraceHandle).handleTrap props C03 C15
+//@   arith bv
+//@   requires ph.Tracer != nil && ph.Tracer.Handler != nil
+//@   assigns T.setregs_count, T.setregs_orig_rax, T.setregs_rax, T.setregs_pid
+//@   callsite skipSyscall: assert @C03 c.Pid == pid
+//@   ensures T.setregs_count == old(T.setregs_count) || (T.setregs_count == old(T.setregs_count) + 1 && T.setregs_orig_rax == 18446744073709551615 && T.setregs_pid == pid)
+
+//@ func ptracer.(*Tracer).checkUsage props C08
+//@   arith bv
+//@   assigns nothing
+//@   ensures int64(result.0) == rusage.Utime.Sec * 1000000000 + rusage.Utime.Usec * 1000
+//@   ensures uint64(result.1) == uint64(rusage.Maxrss << 10)
+//@   ensures uint64(result.1) > uint64(t.Limit.MemoryLimit) ==> int(result.2) == 3
+//@   ensures uint64(result.1) <= uint64(t.Limit.MemoryLimit) && int64(result.0) > int64(t.Limit.TimeLimit) ==> int(result.2) == 2
+//@   ensures uint64(result.1) <= uint64(t.Limit.MemoryLimit) && int64(result.0) <= int64(t.Limit.TimeLimit) ==> int(result.2) == 1
+
+// One wait event. Verdicts follow the README status table for the main process (pid == pgid);
+// an exit or a fatal signal of any other process leaves the run going with status Normal.
+//@ func ptracer.(*ptraceHandle).handle props C03 C09 C15
+//@   arith bv
+//@   requires ph.Tracer != nil && ph.Tracer.Handler != nil && ph.traced != nil
+//@   requires forall q int :: has(ph.traced, q) && ph.traced[q] ==> T.options[q] == 1048734
+//@   ensures @C03 forall q int :: has(ph.traced, q) && ph.traced[q] ==> T.options[q] == 1048734 || int(status) == 8
+//@   assigns ph.execved, ph.fTime, mapof(ph.traced), T.cont_count, T.options, T.setregs_count, T.setregs_orig_rax, T.setregs_rax, T.setregs_pid
+//@   ensures @C09 pid == old(ph.pgid) && ws_exited(uint32(wstatus)) && old(ph.execved) ==> finished && int(status) == status_of_exit(ws_exitcode(uint32(wstatus))) && exitStatus == ws_exitcode(uint32(wstatus))
+//@   ensures @C09 @C15 pid == old(ph.pgid) && ws_exited(uint32(wstatus)) && !old(ph.execved) ==> finished && int(status) == 8 && len(errStr) > 0
+//@   ensures @C09 pid == old(ph.pgid) && ws_signaled(uint32(wstatus)) ==> int(status) == status_of_signal(ws_termsig(uint32(wstatus))) && exitStatus == ws_termsig(uint32(wstatus))
+//@   ensures @C09 pid != old(ph.pgid) && (ws_exited(uint32(wstatus)) || ws_signaled(uint32(wstatus))) ==> int(status) == 1 && !finished
+//@   ensures @C09 ws_stopped(uint32(wstatus)) && ws_stopsig(uint32(wstatus)) == 24 && int(status) != 8 ==> int(status) == 2
+//@   ensures @C09 ws_stopped(uint32(wstatus)) && ws_stopsig(uint32(wstatus)) == 25 && int(status) != 8 ==> int(status) == 4
+//@   ensures @C15 int(status) == 8 ==> len(errStr) > 0 && ((pid == old(ph.pgid) && ws_exited(uint32(wstatus)) && !old(ph.execved)) || (ws_stopped(uint32(wstatus)) && !old(has(ph.traced, pid) && ph.traced[pid])))
+//@   ensures @C03 int(status) != 1 && !ws_signaled(uint32(wstatus)) ==> T.cont_count == old(T.cont_count)
+//@   callsite golang.org/x/sys/unix.PtraceCont: assert @C03 ws_stopped(uint32(wstatus)) ==> has(ph.traced, pid) && ph.traced[pid] && T.options[pid] == 1048734
+
+//@ func ptracer.killAll props C12 C16
+//@   arith bv
+//@   assigns T.kill_count, T.kill_last_pid, T.kill_last_sig
+//@   ensures T.kill_count == old(T.kill_count) + 1 && T.kill_last_pid == -pgid && T.kill_last_sig == 9
+
+//@ func ptracer.collectZombie props C12
+//@   arith bv
+//@   assigns nothing
+//@   loop 0: invariant true
+
+//@ func ptracer.newPtraceHandle props C09
+//@   arith bv
+//@   assigns nothing
+//@   ensures result != nil && fresh(result) && result.Tracer == t && result.pgid == pgid && result.traced != nil && fresh(result.traced) && !result.execved
+//@   ensures forall q int :: !has(result.traced, q)
+
+// Deferred clean-up of trace: kill the whole group, then reap until wait4 fails (C12); the verdict is
+// left untouched (recover() yields nil because absence of panics is proved separately, C15).
+//@ func ptracer.(*Tracer).trace$2 props C12 C16
+//@   arith bv
+//@   requires t != nil && t.Handler != nil && ph != nil
+//@   assigns result.SetUpTime, result.RunningTime, T.kill_count, T.kill_last_pid, T.kill_last_sig
+//@   ensures T.kill_count == old(T.kill_count) + 1 && T.kill_last_pid == -pgid && T.kill_last_sig == 9
+//@   callsite collectZombie: assert T.kill_count == old(T.kill_count) + 1
+
+//@ func ptracer.(*Tracer).trace props C09 C12 C15
+//@   arith bv
+//@   requires t != nil && t.Handler != nil
+//@   assigns T.cont_count, T.options, T.setregs_count, T.setregs_orig_rax, T.setregs_rax, T.setregs_pid, T.kill_count, T.kill_last_pid, T.kill_last_sig
+//@   loop 0: invariant t == old(t) && pgid == old(pgid) && cancel != nil
+//@   loop 0: invariant ph != nil && fresh(ph) && ph.Tracer == t && ph.traced != nil && fresh(ph.traced) && ph.pgid == pgid
+//@   loop 0: invariant forall q int :: has(ph.traced, q) && ph.traced[q] ==> T.options[q] == 1048734
+//@   ensures @C09 @C15 int(result.Status) == 8 ==> len(result.Error) > 0
+//@   ensures @C12 T.kill_count >= old(T.kill_count) + 1 && T.kill_last_pid == -pgid && T.kill_last_sig == 9
